@@ -321,6 +321,11 @@ func toggleElems(cond, text, htmlv, coll string) string {
 			fmt.Fprintf(&sb, `<p%s%s v-once>o%d</p>`, dir, pad, i)
 			fmt.Fprintf(&sb, `<p%s%s v-if="%s" style="top:0" v-show="%s">i%d</p>`, dir, pad, cond, cond, i)
 		}
+		// v-pre (content copied unevaluated), v-keep (the <template> tag itself is kept), the long v-bind: spelling
+		fmt.Fprintf(&sb, `<p v-pre%s>{{ %s }} <b v-if="%s" :title="%s">k</b></p>`, pad, text, cond, text)
+		fmt.Fprintf(&sb, `<template v-keep class="kept"%s><i v-show="%s" style="top:1px">{{ %s }}</i></template>`, pad, cond, text)
+		fmt.Fprintf(&sb, `<template v-if="%s" v-keep%s><em v-bind:title="%s">kept-if</em></template><template v-else v-keep><em>kept-else</em></template>`, cond, pad, text)
+		fmt.Fprintf(&sb, `<u v-bind:class="{on: %s}" v-bind:style="{color: 'red'}" v-bind:data-t="%s"%s>vb</u>`, cond, text, pad)
 		fmt.Fprintf(&sb, `<template v-html="%s"%s></template>`, htmlv, pad)
 		fmt.Fprintf(&sb, `<template v-text="%s"%s></template>`, text, pad)
 		fmt.Fprintf(&sb, `<b v-for="x in %s" v-text="%s"%s v-show="%s" style="left:0"></b>`, coll, text, pad, cond)
